@@ -202,6 +202,7 @@ def build_and_audit(ctx, mod):
     theorems = list(getattr(mod, "THEOREMS", []))
     if ctx.build_ok:
         audit = LEAN / "Audit" / f"{ctx.pid}.lean"
+        audit.parent.mkdir(parents=True, exist_ok=True)
         imports = "\n".join(f"import {t}" for t in getattr(mod, "LEAN_TARGETS", []))
         audit.write_text(imports + "\n" + "\n".join(f"#print axioms {t}" for t in theorems) + "\n")
         rc, out = sh(["lake", "env", "lean", str(audit)], cwd=LEAN)
